@@ -263,6 +263,8 @@ def check_attr(A, rep):
                 prefixes = [x.args[2][0].args[0] for n in brs for x in n["cond"].walk() if x.kind == "call" and x.args[0] == "startswith" and x.args[2] and x.args[2][0].kind == "const"]
                 if prefixes and all(p_ == "__" for p_ in prefixes):
                     rep.ok("C18.d", f"C18.d {c.name}.{a}: only protected names and dunders ('__' prefix) address the object itself")
+                elif not prefixes:
+                    rep.undecided_note("C18.d", f"{f.qualname}: the dunder test is not a literal startswith(...) call; prefix not judged")
                 else:
                     rep.fail("C18.d", norm_key("C18.d", f.qualname, "prefix"),
                              f"{f.qualname} routes names with prefix {prefixes} to the object instead of the data (only protected names and dunders, prefix '__', may): such keys are never stored or saved", [f.loc], g.label)
